@@ -1,6 +1,6 @@
 SPECIFICATION TSpec
 CONSTANTS
-  NPos = 24
+  NPos = 72
   Mut = "none"
 POSTCONDITION AllConsumed
 CHECK_DEADLOCK FALSE
